@@ -18,7 +18,15 @@ theorem client_delay_widens (r : Record) (real m1 m2 : TimeSpec) (e1 l1 e2 l2 : 
     (h2 : m2.inRange = true) (hle : m1.toNs ≤ m2.toNs)
     (o1 : computeBoundAt r real m1 = .ok e1 l1 s1) (o2 : computeBoundAt r real m2 = .ok e2 l2 s2) :
     l1.toNs - real.toNs ≤ l2.toNs - real.toNs ∧ e2.toNs ≤ e1.toNs := by
-  sorry
+  obtain ⟨_, _, _, he1, hl1, _, _, _⟩ := ok_closed _ hx e1 l1 s1 o1
+  obtain ⟨_, _, _, he2, hl2, _, _, _⟩ :=
+    ok_closed (⟨r, real, m2⟩ : ClientIn) (meaningful_withMono hx h2) e2 l2 s2 o2
+  have _ := hd
+  have hage : (⟨r, real, m1⟩ : ClientIn).age ≤ (⟨r, real, m2⟩ : ClientIn).age := by
+    rw [age_eq_max, age_eq_max]; simp only []; omega
+  have := C05.growth_mono _ _ r.drift hage
+  simp only [] at he1 hl1 he2 hl2
+  omega
 
 /-- (ii-b) daemon side: an earlier as-of reading (a longer delay before chronyd answers) only widens
     the interval a client later computes from the same report -/
@@ -28,10 +36,38 @@ theorem daemon_delay_widens (r1 r2 : Record) (real mono : TimeSpec) (e1 l1 e2 l2
     (hd : r1.drift < 1000000000) (hle : r2.asOf.toNs ≤ r1.asOf.toNs)
     (o1 : computeBoundAt r1 real mono = .ok e1 l1 s1) (o2 : computeBoundAt r2 real mono = .ok e2 l2 s2) :
     l1.toNs - real.toNs ≤ l2.toNs - real.toNs := by
-  sorry
+  have _ := hd
+  have hb : r2.bound = r1.bound := by rw [hsame]
+  have hdr : r2.drift = r1.drift := by rw [hsame]
+  obtain ⟨_, _, _, _, hl1, _, _, _⟩ := ok_closed _ hx1 e1 l1 s1 o1
+  obtain ⟨_, _, _, _, hl2, _, _, _⟩ := ok_closed _ hx2 e2 l2 s2 o2
+  have hage : (⟨r1, real, mono⟩ : ClientIn).age ≤ (⟨r2, real, mono⟩ : ClientIn).age := by
+    rw [age_eq_max, age_eq_max]; simp only []; omega
+  have := C05.growth_mono _ _ r1.drift hage
+  simp only [] at hl1 hl2
+  rw [hb, hdr] at hl2
+  omega
 
 -- (ii-c) C01 needs only `ta ≤ tq` and `tr ≤ tm` as ordering facts about the reads, so it holds for
 -- every amount of delay: that is `C01.containment` itself (hypotheses `WEvent.ok` and `hrm`).
+
+/-- a realtime clock gaining exactly ρ = 50 ppm on an ideal monotonic clock -/
+def driftWorld : World := ⟨fun t => t + t * 50000 / 1000000000, fun t => t, 50000⟩
+
+/-- a report with offset 0, delay 0, dispersion 2^-20 s (954 ns), 16 s update interval -/
+def report : Tracking :=
+  { leap := 0, refNs := 0, offW := 0, dispW := 3699376128, delayW := 0, intervalW := 209715200 }
+
+/-- `driftWorld` satisfies the clock hypotheses of C01 (with equality in the drift bound) -/
+theorem driftWorld_good : driftWorld.Good := by
+  refine ⟨fun t1 t2 h => h, ?_⟩
+  intro t1 t2 h
+  show (t2 + t2 * 50000 / 1000000000 - t2) - (t1 + t1 * 50000 / 1000000000 - t1) ≤
+        ((50000 : Nat) : Rat) * (t2 - t1) / 1000000000 ∧
+      (t1 + t1 * 50000 / 1000000000 - t1) - (t2 + t2 * 50000 / 1000000000 - t2) ≤
+        ((50000 : Nat) : Rat) * (t2 - t1) / 1000000000
+  push_cast
+  constructor <;> linarith
 
 /-- (iii) necessity, daemon side: if the as-of reading were taken AFTER chronyd answered, there is a
     world satisfying every other hypothesis in which containment fails. -/
@@ -42,7 +78,22 @@ theorem asof_after_query_breaks :
       ∃ r e l st, r ∈ (DaemonState.run w [.poll ta tq tp (some t) 0 false]).published ∧
         clientQuery w r tr tm = .ok e l st ∧ st ≠ .unknown ∧
         ¬ ((e.toNs : Rat) - sigma w < tr ∧ tr < (l.toNs : Rat) + sigma w) := by
-  sorry
+  -- chronyd answers at 0 s (clock exact there), as-of is read 20 s later, the client asks at 22 s:
+  -- the growth term covers 2 s of drift instead of 22 s, and 20 s · 50 ppm = 1 ms is missing
+  refine ⟨driftWorld, 20000000000, 0, 20000000000, 22000000000, 22000000000, report,
+    driftWorld_good, by norm_num, by norm_num, by norm_num, by norm_num, ?_, by decide +kernel,
+    ⟨⟨20, 0⟩, ⟨1020, 0⟩, 954, 50000, 0, .synchronized⟩, ⟨22, 999046⟩, ⟨22, 1200954⟩, .synchronized,
+    ?_, by decide +kernel, by decide, ?_⟩
+  · show absR _ ≤ _
+    decide +kernel
+  · have hp : (DaemonState.run driftWorld
+        [.poll 20000000000 0 20000000000 (some report) 0 false]).published =
+        [⟨⟨20, 0⟩, ⟨1020, 0⟩, 954, 50000, 0, .synchronized⟩] := by decide +kernel
+    rw [hp]; exact List.mem_cons_self
+  · intro h
+    have h1 := h.1
+    revert h1
+    decide +kernel
 
 /-- (iii) necessity, client side: if the monotonic clock were read BEFORE the realtime clock … -/
 theorem mono_before_realtime_breaks :
@@ -52,6 +103,20 @@ theorem mono_before_realtime_breaks :
       ∃ r e l st, r ∈ (DaemonState.run w [.poll ta tq tp (some t) 0 false]).published ∧
         clientQuery w r tr tm = .ok e l st ∧ st ≠ .unknown ∧
         ¬ ((e.toNs : Rat) - sigma w < tr ∧ tr < (l.toNs : Rat) + sigma w) := by
-  sorry
+  -- the whole poll happens at 0 s; the client reads the monotonic clock at 2 s and the realtime
+  -- clock only at 22 s: again 20 s · 50 ppm = 1 ms of drift is not covered
+  refine ⟨driftWorld, 0, 0, 0, 22000000000, 2000000000, report,
+    driftWorld_good, by norm_num, by norm_num, by norm_num, by norm_num, ?_, by decide +kernel,
+    ⟨⟨0, 0⟩, ⟨1000, 0⟩, 954, 50000, 0, .synchronized⟩, ⟨22, 999046⟩, ⟨22, 1200954⟩, .synchronized,
+    ?_, by decide +kernel, by decide, ?_⟩
+  · show absR _ ≤ _
+    decide +kernel
+  · have hp : (DaemonState.run driftWorld [.poll 0 0 0 (some report) 0 false]).published =
+        [⟨⟨0, 0⟩, ⟨1000, 0⟩, 954, 50000, 0, .synchronized⟩] := by decide +kernel
+    rw [hp]; exact List.mem_cons_self
+  · intro h
+    have h1 := h.1
+    revert h1
+    decide +kernel
 
 end ClockBound.C12
